@@ -37,8 +37,9 @@ def verify(name, tier="quick", run_tests=True, keep=False):
         res["repo_head"] = sh("git -C /repo rev-parse --short HEAD")[1].strip()
         touches_c = any(l.startswith("+++") and l.strip().endswith((".c", ".h")) for l in (d / "patch.diff").read_text().splitlines())
         env = dict(os.environ, PYTHONPATH=f"{wt}/src", MPLBACKEND="Agg")
-        if touches_c:
-            sh(f"{KIT}/build_ext.sh {wt}")
+        # always build the extension modules inside the scratch worktree: without them `import c_hydrodiy_*` would fall
+        # back to the prebuilt binaries of /repo/src, which may not correspond to HEAD's C sources
+        sh(f"{KIT}/build_ext.sh {wt}")
         rc0, o0 = sh(f"/venv/bin/python {d}/demo.py", env=env, cwd="/tmp", timeout=900)
         res["demo_clean_exit"] = rc0
         rc, out = sh(f"git -C {wt} apply --whitespace=nowarn {d}/patch.diff")
